@@ -113,7 +113,8 @@ func otherG2(seed byte) *math.G2 {
 }
 
 type codec interface {
-	shareOff(b []byte) []byte // a share moved off the polynomial
+	shareOffY(b []byte) []byte // a share whose last component only is moved off the polynomial
+	shareOff(b []byte) []byte  // a share moved off the polynomial
 	truncShare(b []byte) []byte
 	otherKey(seed byte) []byte // a well-formed public key unrelated to the real one
 	shiftKey(b []byte) []byte  // the real key shifted by a generator multiple
@@ -126,8 +127,9 @@ type blsCodec struct{}
 func (blsCodec) shareOff(b []byte) []byte {
 	return curve.NewZrFromBytes(b).Plus(curve.NewZrFromInt(1)).Bytes()
 }
-func (blsCodec) truncShare(b []byte) []byte { return b[:len(b)/2] }
-func (blsCodec) otherKey(seed byte) []byte  { return otherG2(seed).Bytes() }
+func (c blsCodec) shareOffY(b []byte) []byte { return c.shareOff(b) }
+func (blsCodec) truncShare(b []byte) []byte  { return b[:len(b)/2] }
+func (blsCodec) otherKey(seed byte) []byte   { return otherG2(seed).Bytes() }
 func (blsCodec) shiftKey(b []byte) []byte {
 	g, err := curve.NewG2FromBytes(b)
 	if err != nil {
@@ -165,6 +167,15 @@ func (psCodec) shareOff(b []byte) []byte {
 		return b
 	}
 	x.X = curve.NewZrFromBytes(x.X).Plus(curve.NewZrFromInt(1)).Bytes()
+	return psPack(x)
+}
+func (psCodec) shareOffY(b []byte) []byte {
+	x, ok := psParse(b)
+	if !ok || len(x.Ys) == 0 {
+		return b
+	}
+	i := len(x.Ys) - 1
+	x.Ys[i] = curve.NewZrFromBytes(x.Ys[i]).Plus(curve.NewZrFromInt(1)).Bytes()
 	return psPack(x)
 }
 func (psCodec) truncShare(b []byte) []byte { return b[:len(b)/2] }
@@ -207,6 +218,45 @@ func (psCodec) wrongCount(b []byte, more bool) []byte {
 	return psPack(x)
 }
 
+// AttackerKey is x*G2 for an x the deviator knows.
+var attackerX = curve.HashToZr([]byte("attacker secret"))
+
+func attackerKey() *math.G2 { return curve.GenG2.Mul(attackerX) }
+
+func lagrangeAt0(i int, n int) *math.Zr {
+	num := curve.NewZrFromInt(1)
+	den := curve.NewZrFromInt(1)
+	for j := 1; j <= n; j++ {
+		if j == i {
+			continue
+		}
+		num = curve.ModMul(num, curve.NewZrFromInt(int64(j)), curve.GroupOrder)
+		d := curve.ModSub(curve.NewZrFromInt(int64(j)), curve.NewZrFromInt(int64(i)), curve.GroupOrder)
+		den = curve.ModMul(den, d, curve.GroupOrder)
+	}
+	den.InvModP(curve.GroupOrder)
+	return curve.ModMul(num, den, curve.GroupOrder)
+}
+
+// adaptiveKey: pk_dev = (X - sum_{i != dev} lambda_i pk_i) / lambda_dev  (interpolation over all n
+// parties, the only subset when t = n). With honest == nil a placeholder key is returned.
+func adaptiveKey(k cell, honest map[uint16][]byte) []byte {
+	if honest == nil {
+		return attackerKey().Bytes()
+	}
+	acc := attackerKey()
+	for id, raw := range honest {
+		pk, err := curve.NewG2FromBytes(raw)
+		if err != nil {
+			return attackerKey().Bytes()
+		}
+		acc.Sub(pk.Mul(lagrangeAt0(int(id), k.NN)))
+	}
+	inv := lagrangeAt0(int(k.Dev), k.NN)
+	inv.InvModP(curve.GroupOrder)
+	return acc.Mul(inv).Bytes()
+}
+
 func mpc(tag byte, payload []byte) []byte { return append([]byte{255, tag}, payload...) }
 
 func kind(p *world.Packet) (byte, []byte, bool) {
@@ -224,7 +274,7 @@ func with(p *world.Packet, data []byte) *world.Packet {
 
 var strategies = []string{
 	"honest",
-	"S1-share-off-polynomial",
+	"S1-share-off-polynomial", "S1-share-off-polynomial-last-component",
 	"S2-reveal-mismatches-commitment", "S2-reveal-mismatches-commitment-all",
 	"S3-split-commitment", "S3-split-commitment-selfack",
 	"S4-split-reveal", "S4-split-reveal-selfack",
@@ -234,6 +284,7 @@ var strategies = []string{
 	"S6-duplicate-equal", "S6-duplicate-different",
 	"S7-withhold-share", "S7-withhold-commitment", "S7-withhold-reveal",
 	"S8-commit-reveal-first", "S8-reveal-before-commit",
+	"S10-weak-commitment-empty-adaptive-key", "S10-weak-commitment-prefix-adaptive-key",
 	"S9-consistent-key-off-polynomial", "S9-consistent-key-too-few-components", "S9-consistent-key-too-many-components",
 }
 
@@ -249,7 +300,45 @@ func filterFor(k cell, cd codec, topicOf func() []byte) func(p *world.Packet) []
 		q.Data = data
 		return &q
 	}
+	// S10: the deviator's commitment does not bind (empty / 1-byte prefix of the hash of some key);
+	// its reveal is held back until every honest party has revealed, then a key is revealed that
+	// makes the joint key (t = n) equal to AttackerKey, whose secret only the deviator knows.
+	honestReveal := map[uint16][]byte{}
+	var heldReveal []*world.Packet
 	return func(p *world.Packet) []*world.Packet {
+		if strings.HasPrefix(s, "S10") && k.Backend == "bls" {
+			tag, body, ok := kind(p)
+			if ok && p.From != k.Dev && tag == tagReveal {
+				honestReveal[p.From] = body
+				out := []*world.Packet{p}
+				if len(honestReveal) == k.NN-1 && heldReveal != nil {
+					key := adaptiveKey(k, honestReveal)
+					for _, h := range heldReveal {
+						out = append(out, with(h, mpc(tagReveal, key)))
+					}
+					heldReveal = nil
+				}
+				return out
+			}
+			if ok && p.From == k.Dev && tag == tagCommit {
+				weak := []byte{}
+				if strings.Contains(s, "prefix") {
+					// the attacker cannot know the hash of its later key: one byte is a guess that is
+					// right with probability 1/256 - the strategy only matters if prefixes are accepted
+					hh := sha256.Sum256(adaptiveKey(k, nil))
+					weak = hh[:1]
+				}
+				return []*world.Packet{with(p, mpc(tagCommit, weak))}
+			}
+			if ok && p.From == k.Dev && tag == tagReveal {
+				if len(honestReveal) == k.NN-1 {
+					return []*world.Packet{with(p, mpc(tagReveal, adaptiveKey(k, honestReveal)))}
+				}
+				heldReveal = append(heldReveal, p)
+				return nil
+			}
+			return []*world.Packet{p}
+		}
 		if p.From != k.Dev {
 			return []*world.Packet{p}
 		}
@@ -283,6 +372,10 @@ func filterFor(k cell, cd codec, topicOf func() []byte) func(p *world.Packet) []
 		case "S1-share-off-polynomial":
 			if tag == tagShare && victim {
 				out = []*world.Packet{with(p, mpc(tag, cd.shareOff(body)))}
+			}
+		case "S1-share-off-polynomial-last-component":
+			if tag == tagShare && victim {
+				out = []*world.Packet{with(p, mpc(tag, cd.shareOffY(body)))}
 			}
 		case "S2-reveal-mismatches-commitment":
 			if tag == tagReveal && victim {
@@ -540,6 +633,13 @@ func oracle(c *harness.C, k cell, o *out) string {
 			}
 			signers[id] = sg
 		}
+		if strings.HasPrefix(k.Strategy, "S10") {
+			var pp bls.PublicParams
+			if _, err := asn1.Unmarshal(pk0, &pp); err == nil && bytes.Equal(pp.ThresholdPK, attackerKey().Bytes()) {
+				bad("commitment-binds", "c05-adaptive-key-accepted", fmt.Sprintf("honest parties %v completed with a threshold key chosen by the deviator after it saw their public keys (its commitment did not bind it): the deviator alone can sign", done))
+				return outcome + " rogue-key"
+			}
+		}
 		if len(done) >= k.TT {
 			var v bls.Verifier
 			if err := v.Init(pk0); err != nil {
@@ -715,7 +815,10 @@ func gen(c *harness.C) []harness.Case {
 				base := cell{Backend: be, NN: x.n, TT: x.t, Dev: dev}
 				for _, s := range strategies {
 					vs := nonEmptySubsets(honestOf(base))
-					if s == "honest" || strings.HasSuffix(s, "-all") || strings.HasPrefix(s, "S6") || strings.HasPrefix(s, "S8") || strings.HasPrefix(s, "S9") || strings.Contains(s, "-key") || s == "S5-reveal-not-a-point" {
+					if strings.HasPrefix(s, "S10") && (be != "bls" || x.t != x.n) {
+						continue
+					}
+					if s == "honest" || strings.HasPrefix(s, "S10") || strings.HasSuffix(s, "-all") || strings.HasPrefix(s, "S6") || strings.HasPrefix(s, "S8") || strings.HasPrefix(s, "S9") || strings.Contains(s, "-key") || s == "S5-reveal-not-a-point" {
 						vs = vs[len(vs)-1:] // victim set irrelevant: everybody
 					}
 					for _, v := range vs {
